@@ -6,6 +6,10 @@ ids = [json.loads(l)['id'] for l in open(f'{V}/properties.jsonl')]
 hook_commits = ["d6c2605", "7556b51"]
 
 CLAIMED = {
+ "C15": dict(engine="E2 corpus", technique="proptest-driven generation of doc texts x positions with metamorphic twins (docs removed / changed); oracle = comment-free swc AST equality + swc comment attachment",
+   text="Every generated module is compiled three times (as generated, docs removed, docs changed); the comment-free swc ASTs of all declarations must be identical. Each doc comment of a type or named field must appear as exactly one block comment that swc attaches to the documented declaration/property, separated by white space only and containing every doc line; no other comment may exist; the texts and the files written into shared files must satisfy C04's conditions.",
+   note="Docs of flattened fields and variants are documented as dropped. The same-file merge findings of C05 are listed for C15 as one known finding and excluded from the merged part of the search.",
+   ref="DESIGN.md §4 C15"),
  "C12": dict(engine="E2 corpus", technique="proptest-driven generation of library type expressions x generated values; oracle = serde_json output in the swc-parsed type, witnesses deserialise, dependencies == type arguments",
    text="Type expressions over the supported std library types (NonZero*, paths, network addresses, Option/Result/Vec/slices/str, arrays, tuples of arity 1..10, sets, maps with every key kind incl. wrapped unit-enum keys, ranges, smart pointers and locks) composed to depth 3 are placed in generated wrapper types and compiled; serialised values must inhabit the reported type, witnesses of the reported type must deserialise (where no leaf parses its string), dependencies() must equal the user types the declaration mentions; array lengths 0..=65 are checked for the tuple/Array switch-over at 64.",
    note="Feature-gated third-party crates are not exercised in the quick tier. PhantomData and Weak are listed known findings.",
